@@ -814,6 +814,26 @@ func (e *lifeEnv) step(pre *lifeState, st *lStep, t int, want *lPost) lifeOutcom
 			continue
 		}
 
+		// ... also under a protocol whose limits are exactly this request's sizes (the request as sent, its delta in
+		// canonical form): a request of the builders fits the limits it was built for
+		{
+			var carried struct {
+				Delta map[string]interface{} `json:"delta"`
+			}
+
+			if json.Unmarshal(b.req, &carried) == nil && carried.Delta != nil {
+				tight := e.proto
+				tight.MaxDeltaSize = uint(len(refJCSSimple(carried.Delta)))
+				tight.MaxOperationSize = uint(len(b.req))
+
+				if _, terr := operationparser.New(tight).Parse(lifeNS, b.req); terr != nil {
+					fail("request-rejected", b.level, fmt.Sprintf("under limits that are the request's own sizes (request %d bytes, canonical delta %d bytes): %v",
+						tight.MaxOperationSize, tight.MaxDeltaSize, terr), "accepted", "rejected", b.req)
+					continue
+				}
+			}
+		}
+
 		// 2. the anchored form is the canonical encoding of the same request
 		anch, aerr := model.GetAnchoredOperation(mop)
 		if aerr != nil {
